@@ -138,7 +138,7 @@ const prelude = `(declare-sort Str 0)
 var symRe = regexp.MustCompile(`\|[^|]*\|`)
 
 // buildQuery assembles the SMT-LIB text of one obligation, pruning declarations to the symbols that occur.
-func (V *Verifier) buildQuery(o *Oblig, sums map[string]*SumFn, negate bool) string {
+func (V *Verifier) buildQuery(o *Oblig, sums map[string]*SumFn, negate bool, level int) string {
 	var body strings.Builder
 	for _, p := range o.PC {
 		if o.Vacuity && (strings.Contains(p, "(forall ") || strings.Contains(p, "(exists ")) {
@@ -153,6 +153,22 @@ func (V *Verifier) buildQuery(o *Oblig, sums map[string]*SumFn, negate bool) str
 			g = skolemizeGoal(e, &skDecls).String()
 		}
 		body.WriteString("(assert (not " + g + "))\n")
+		// instances of universally quantified assumptions at the goal's skolem constants: makes the terms ground so that
+		// sum unfoldings and lemmas can be generated for them (each instance is implied by the assumption it comes from)
+		if len(skDecls) > 0 {
+			for _, p := range o.PC {
+				if !strings.Contains(p, "(forall ") {
+					continue
+				}
+				pe, err := parseSx(p)
+				if err != nil {
+					continue
+				}
+				for _, inst := range instancesAt(pe, skDecls) {
+					body.WriteString("(assert " + inst + ")\n")
+				}
+			}
+		}
 	}
 	text := body.String()
 	// unfold recursive sums one step at the applications that occur in the query; applications introduced by an
@@ -190,7 +206,7 @@ func (V *Verifier) buildQuery(o *Oblig, sums map[string]*SumFn, negate bool) str
 		}
 		scan = strings.Join(added, "\n")
 	}
-	unfold = append(unfold, sumRelationLemmas(text+strings.Join(unfold, "\n"), sums)...)
+	unfold = append(unfold, sumRelationLemmas(text+strings.Join(unfold, "\n"), sums, level)...)
 	full := text + strings.Join(unfold, "\n")
 	used := map[string]bool{}
 	for _, m := range symRe.FindAllString(full, -1) {
@@ -282,18 +298,21 @@ func sexpArgs(text, fn string) [][]string {
 }
 
 type solverCfg struct {
-	Name string
-	Cmd  []string
-	Pre  string
+	Name  string
+	Cmd   []string
+	Pre   string
+	Level int // 0: sum unfoldings and same-function lemmas; 1: additionally cross-function congruence instances
 }
 
 func (V *Verifier) solverConfigs() []solverCfg {
 	t := V.timeout
 	return []solverCfg{
-		{"z3-new/ematch", []string{"z3-new", fmt.Sprintf("-T:%d", t), fmt.Sprintf("smt.random_seed=%d", V.seed%1000)}, "(set-option :smt.mbqi false)\n(set-option :smt.auto_config false)\n"},
-		{"z3-new", []string{"z3-new", fmt.Sprintf("-T:%d", t), fmt.Sprintf("smt.random_seed=%d", V.seed%1000)}, ""},
-		{"cvc5", []string{"cvc5", "-q", fmt.Sprintf("--tlimit=%d", t*1000), fmt.Sprintf("--seed=%d", V.seed%1000)}, "(set-logic ALL)\n"},
-		{"z3-4.8.12", []string{"z3", fmt.Sprintf("-T:%d", t)}, ""},
+		{"z3-new/ematch", []string{"z3-new", fmt.Sprintf("-T:%d", t), fmt.Sprintf("smt.random_seed=%d", V.seed%1000)}, "(set-option :smt.mbqi false)\n(set-option :smt.auto_config false)\n", 0},
+		{"z3-new", []string{"z3-new", fmt.Sprintf("-T:%d", t), fmt.Sprintf("smt.random_seed=%d", V.seed%1000)}, "", 0},
+		{"cvc5", []string{"cvc5", "-q", fmt.Sprintf("--tlimit=%d", t*1000), fmt.Sprintf("--seed=%d", V.seed%1000)}, "(set-logic ALL)\n", 0},
+		{"z3-4.8.12", []string{"z3", fmt.Sprintf("-T:%d", t)}, "", 0},
+		{"z3-new+x", []string{"z3-new", fmt.Sprintf("-T:%d", t), fmt.Sprintf("smt.random_seed=%d", V.seed%1000)}, "", 1},
+		{"cvc5+x", []string{"cvc5", "-q", fmt.Sprintf("--tlimit=%d", t*1000), fmt.Sprintf("--seed=%d", V.seed%1000)}, "(set-logic ALL)\n", 1},
 	}
 }
 
@@ -303,7 +322,14 @@ func (V *Verifier) discharge(o *Oblig, sums map[string]*SumFn, dir string) {
 		o.Status, o.Backend = "unsat", "trivial"
 		return
 	}
-	q := V.buildQuery(o, sums, !o.Vacuity)
+	q := V.buildQuery(o, sums, !o.Vacuity, 0)
+	q1 := ""
+	if !o.Vacuity && len(sums) > 1 {
+		q1 = V.buildQuery(o, sums, true, 1)
+		if q1 == q {
+			q1 = ""
+		}
+	}
 	o.Bytes = len(q)
 	if len(q) > 4<<20 {
 		o.Status, o.Detail = "error", "query larger than 4 MB"
@@ -321,12 +347,24 @@ func (V *Verifier) discharge(o *Oblig, sums map[string]*SumFn, dir string) {
 	ch := make(chan res, len(cfgs))
 	t0 := time.Now()
 	var wg sync.WaitGroup
+	var run []solverCfg
+	for _, c := range cfgs {
+		if c.Level == 1 && q1 == "" {
+			continue
+		}
+		run = append(run, c)
+	}
+	cfgs = run
 	for i, c := range cfgs {
 		wg.Add(1)
 		go func(i int, c solverCfg) {
 			defer wg.Done()
 			f := fmt.Sprintf("%s.%d.smt2", base, i)
-			os.WriteFile(f, []byte(c.Pre+q), 0o644)
+			qq := q
+			if c.Level == 1 {
+				qq = q1
+			}
+			os.WriteFile(f, []byte(c.Pre+qq), 0o644)
 			defer os.Remove(f)
 			cmd := exec.CommandContext(ctx, c.Cmd[0], append(c.Cmd[1:], f)...)
 			var out bytes.Buffer
@@ -452,7 +490,7 @@ func hasBoundArg(args []string) bool {
 //   UPD(n,k): lo <= k < n and (forall i in [lo,n), i != k: body(a,i) = body(b,i))  =>  F(a,n) = F(b,n) + body(a,k) - body(b,k)
 // for the candidate positions k derived from the indices of array stores occurring in the arguments. The inner
 // universal is in an antecedent, so each instance is quantifier-free after skolemisation.
-func sumRelationLemmas(text string, sums map[string]*SumFn) []string {
+func sumRelationLemmas(text string, sums map[string]*SumFn, level int) []string {
 	var names []string
 	for k := range sums {
 		names = append(names, k)
@@ -563,7 +601,7 @@ func sumRelationLemmas(text string, sums map[string]*SumFn) []string {
 			}
 		}
 	}
-	if len(all) <= 24 {
+	if level >= 1 && len(all) <= 24 {
 		for i := 0; i < len(all); i++ {
 			for j := i + 1; j < len(all); j++ {
 				A, B := all[i], all[j]
@@ -576,10 +614,11 @@ func sumRelationLemmas(text string, sums map[string]*SumFn) []string {
 				if loA != loB {
 					continue
 				}
+				ns := []string{A.args[len(A.args)-1]}
 				if A.args[len(A.args)-1] != B.args[len(B.args)-1] {
-					continue // only for textually identical upper bounds (keeps the number of instances small)
+					ns = append(ns, B.args[len(B.args)-1])
 				}
-				for _, n := range []string{A.args[len(A.args)-1]} {
+				for _, n := range ns {
 					nsk++
 					sk := fmt.Sprintf("sumsk_%d", nsk)
 					_, bA := A.sf.inst(pa, sk)
@@ -656,4 +695,65 @@ func sortedSumKeys(sums map[string]*SumFn) []string {
 	}
 	sort.Strings(ks)
 	return ks
+}
+
+// instancesAt returns the instances of the top-level universally quantified conjuncts of e at the given skolem
+// constants (matched by sort; quantifiers with several binders are instantiated for every combination, capped).
+func instancesAt(e *sx, skDecls []string) []string {
+	type sk struct{ name, sort string }
+	var sks []sk
+	for _, d := range skDecls {
+		de, err := parseSx(d)
+		if err == nil && len(de.kids) == 3 {
+			sks = append(sks, sk{de.kids[1].atom, de.kids[2].String()})
+		}
+	}
+	var out []string
+	var visit func(e *sx)
+	visit = func(e *sx) {
+		if e.isAtom() || len(e.kids) == 0 || !e.kids[0].isAtom() {
+			return
+		}
+		switch e.kids[0].atom {
+		case "and":
+			for _, k := range e.kids[1:] {
+				visit(k)
+			}
+		case "!":
+			if len(e.kids) >= 2 {
+				visit(e.kids[1])
+			}
+		case "forall":
+			if len(e.kids) != 3 || e.kids[1].isAtom() {
+				return
+			}
+			binders := e.kids[1].kids
+			bodies := []*sx{e.kids[2]}
+			for _, b := range binders {
+				if b.isAtom() || len(b.kids) != 2 {
+					return
+				}
+				var next []*sx
+				for _, body := range bodies {
+					for _, s := range sks {
+						if s.sort == b.kids[1].String() {
+							next = append(next, substAtom(body, b.kids[0].atom, s.name))
+						}
+					}
+				}
+				bodies = next
+				if len(bodies) == 0 || len(bodies) > 16 {
+					return
+				}
+			}
+			for _, b := range bodies {
+				if len(b.kids) > 0 && b.kids[0].isAtom() && b.kids[0].atom == "!" && len(b.kids) >= 2 {
+					b = b.kids[1]
+				}
+				out = append(out, b.String())
+			}
+		}
+	}
+	visit(e)
+	return out
 }
